@@ -49,13 +49,14 @@ def main(tier):
             for b in st.get('bad', []):
                 i, t = b[0], b[1]
                 rec = recs[i - 1]
-                if isinstance(t, list):
+                if isinstance(t, list) and t[0] > 0:
                     j, tag = t
                     run = rec['runs'][j - 1]
                     key = {'fixed-moved:chain-between-two-fixed': 'removeoverlaps:fixed:chain-between-two-fixed', 'fixed-moved:long-chain-outweighs-fixed': 'removeoverlaps:fixed:long-chain-outweighs-fixed'}.get(tag, 'removeoverlaps:' + tag)
                     vd.violation(key, '%s: rects(x2)=%s border2=%s fixed=%s third=%s' % (tag, rec['rin2'], rec['b2'], run['fixed'], run['third']),
                                  {'rects_doubled': rec['rin2'], 'b2': rec['b2'], 'run': run})
                 else:
+                    t = t[1] if isinstance(t, list) else t
                     vd.violation('generator:' + t, '%s: rects(x2)=%s border2=%s cx=%s cy=%s' % (t, rec['rin2'], rec['b2'], rec['cx'], rec['cy']),
                                  {'rects_doubled': rec['rin2'], 'b2': rec['b2'], 'cx': rec['cx'], 'cxn': rec['cxn'], 'cy': rec['cy']})
         os.remove(rf)
